@@ -57,19 +57,12 @@ def main():
         # count-table entry point on synthetic tagged BAMs
         nb = 40 if tier == 'quick' else 1500
         tmp = tempfile.mkdtemp(prefix='c10_', dir=os.getcwd())
-        for k in range(nb):
-            b = rng.choice([1, 2, 3, 5, 10, 30, 100])
-            s = rng.choice([b, b, max(1, b // 2), max(1, b // 3), 1]) if b > 1 else 1
-            reflen = rng.choice([b * 4, b * 4 + 1, b * 5 - 1, 97, 1000])
-            keep = rng.random() < 0.4
-            bintag = rng.choice(['DS', 'DS', 'bp', 'xs'])          # any bin tag
-            sliding_arg = None if (s == b and rng.random() < 0.5) else s   # default: sliding = bin
-            header = bamgen.make_header([('chrA', reflen), ('chrB', reflen)])
+        def make_bam(path, b, s, reflen, bintag, contigs, n):
+            header = bamgen.make_header([(c, reflen) for c in sorted(set(contigs))])
             reads, desc = [], []
-            n = rng.randint(1, 12)
             for i in range(n):
-                contig = rng.choice(['chrA', 'chrA', 'chrB'])
-                # DS on multiples of the bin size / increment, 0, the contig end, and anything else
+                contig = rng.choice(contigs)
+                # bin-tag value on multiples of the bin size / increment, 0, the contig end, and anything else
                 c = rng.choice([0, reflen - 1, reflen, rng.randint(0, reflen), b * rng.randint(0, reflen // b),
                                 s * rng.randint(0, reflen // s), max(0, b * rng.randint(0, reflen // b) - 1)])
                 c = min(c, reflen)
@@ -80,22 +73,66 @@ def main():
                                               mate_contig=contig if paired else None, mate_pos=pos,
                                               tags={'SM': sample, bintag: c} if rng.random() < 0.9 else {'SM': sample}))
                 if reads[-1].has_tag(bintag):    # a read without the bin tag has no coordinate and is outside the claim
-                    desc.append({'c': c, 'w': 1 if paired else 2, 'sample': sample + '|' + contig})
-            path = os.path.join(tmp, 'b%d.bam' % k)
+                    desc.append({'c': c, 'w': 1 if paired else 2, 'sample': sample + '|' + contig, 'reflen': reflen})
             bamgen.write_bam(path, header, reads)
-            args = SimpleNamespace(alignmentfiles=[path], head=None, o=None, bin=b, binTag=bintag, sliding=sliding_arg,
-                                   bedfile=None, showtags=False, featureTags=None, joinedFeatureTags='reference_name',
-                                   byValue=None, sampleTags='SM', proper_pairs_only=False, no_indels=False,
-                                   max_base_edits=None, no_softclips=False, minMQ=0, filterXA=False, dedup=False,
-                                   divideMultimapping=False, doNotDivideFragments=False, contig=None, blacklist=None,
-                                   r1only=False, r2only=False, filterMP=False, splitFeatures=False,
-                                   feature_delimiter=',', noNames=False, keepOverBounds=keep)
-            import io
-            import contextlib
-            with contextlib.redirect_stdout(io.StringIO()):
-                df = ct.create_count_table(args, return_df=True)
+            return desc
+
+        import io
+        import contextlib
+
+        def run_table(args):
+            try:
+                with contextlib.redirect_stdout(io.StringIO()):
+                    return ct.create_count_table(args, return_df=True)
+            except Exception as ex:      # noqa: recorded as an observation
+                return type(ex).__name__
+
+        for k in range(nb):
+            b = rng.choice([1, 2, 3, 5, 10, 30, 100])
+            s = rng.choice([b, b, max(1, b // 2), max(1, b // 3), 1]) if b > 1 else 1
+            reflen = rng.choice([b * 4, b * 4 + 1, b * 5 - 1, 97, 1000])
+            keep = rng.random() < 0.4
+            bintag = rng.choice(['DS', 'DS', 'bp', 'xs'])          # any bin tag
+            sliding_arg = None if (s == b and rng.random() < 0.5) else s   # default: sliding = bin
+            # history / configuration shapes: one BAM; several BAMs in one call whose headers differ;
+            # the same args namespace re-used for a second call on a BAM with other contig lengths
+            shape = rng.choice(['one', 'one', 'two_files', 'reuse_args'])
+            raised = ''
+            path = os.path.join(tmp, 'b%d.bam' % k)
+            path2 = os.path.join(tmp, 'b%d_2.bam' % k)
+            desc = make_bam(path, b, s, reflen, bintag, ['chrA', 'chrA', 'chrB'], rng.randint(1, 12))
+            paths = [path]
+
+            def mk_args(files):
+                return SimpleNamespace(alignmentfiles=files, head=None, o=None, bin=b, binTag=bintag, sliding=sliding_arg,
+                                       bedfile=None, showtags=False, featureTags=None, joinedFeatureTags='reference_name',
+                                       byValue=None, sampleTags='SM', proper_pairs_only=False, no_indels=False,
+                                       max_base_edits=None, no_softclips=False, minMQ=0, filterXA=False, dedup=False,
+                                       divideMultimapping=False, doNotDivideFragments=False, contig=None, blacklist=None,
+                                       r1only=False, r2only=False, filterMP=False, splitFeatures=False,
+                                       feature_delimiter=',', noNames=False, keepOverBounds=keep)
+            if shape == 'two_files':
+                reflen2 = rng.choice([reflen + b, reflen + 1, max(4, reflen - b), reflen * 2])
+                desc = desc + make_bam(path2, b, s, reflen2, bintag, ['chrA', 'chrB', 'chrC'], rng.randint(1, 12))
+                paths = [path, path2]
+                args = mk_args(paths)
+                df = run_table(args)
+            elif shape == 'reuse_args':
+                reflen2 = rng.choice([reflen + b, reflen + 1, max(4, reflen - b), reflen * 2])
+                args = mk_args([path])
+                with contextlib.redirect_stdout(io.StringIO()):
+                    ct.create_count_table(args, return_df=True)          # first call: result discarded
+                desc = make_bam(path2, b, s, reflen2, bintag, ['chrA', 'chrB', 'chrC'], rng.randint(1, 12))
+                paths = [path, path2]
+                args.alignmentfiles = [path2]                            # same namespace, other BAM
+                df = run_table(args)
+            else:
+                args = mk_args(paths)
+                df = run_table(args)
             rows = []
-            for col in df.columns:
+            if isinstance(df, str):          # the entry point raised on a legal input: recorded, TLC judges
+                raised, df = df, None
+            for col in (df.columns if df is not None else []):
                 colname = col if isinstance(col, str) else col[0]
                 for idx, v in df[col].items():
                     if v != v:  # NaN: cell absent
@@ -105,9 +142,10 @@ def main():
                     assert abs(w2 - round(w2)) < 1e-9, v
                     rows.append({'sample': colname + '|' + contig, 'start': int(start), 'end': int(end), 'w': int(round(w2))})
             tid += 1
-            emit({'ev': 'table', 'tid': tid, 'b': b, 's': s, 'keep': keep, 'reflen': reflen, 'reads': desc, 'table': rows})
-            os.remove(path)
-            os.remove(path + '.bai')
+            emit({'ev': 'table', 'tid': tid, 'b': b, 's': s, 'keep': keep, 'shape': shape, 'raised': raised, 'reads': desc, 'table': rows})
+            for pth in paths:
+                os.remove(pth)
+                os.remove(pth + '.bai')
         os.rmdir(tmp)
 
 
